@@ -90,12 +90,54 @@ def density_job(n):
     return out
 
 
+def inversion_job(args):
+    """contract of the density_matrix() methods for ARBITRARY result objects: density_matrix() = 2^-n sum_P expectation_values()[P] * P.
+    Count data: for every circuit k a delta distribution on circuit k with (a) uniform and (b) delta distributions on the other circuits, plus seeded random counts."""
+    n, conn, seed, ks = args
+    import random
+    from qiskit import QuantumCircuit
+    import htstabilizer.tomography as T
+    rnd = random.Random(seed)
+    circs = T.full_state_tomography_circuits(QuantumCircuit(n), conn)
+    keys = [s for _, s in tomo.outcome_keys(n)]
+    out = []
+
+    def check(counts, tag):
+        fit = T.FullStateTomographyFitter(tomo.FakeResult(counts), circs)
+        ev = fit.expectation_values()
+        dm = fit.density_matrix()
+        want = np.zeros((2 ** n, 2 ** n), dtype=complex)
+        for pk, v in ev.items():
+            x, z, _ = tomo.pauli_to_xz(pk)
+            want += dense_pauli(n, x, z) * v
+        want /= 2 ** n
+        ok = dm.shape == want.shape and np.allclose(dm, want, atol=1e-9)
+        sm = T.StabilizerMeasurementFitter(tomo.FakeResult(counts[0]), circs[0])
+        ev0 = sm.expectation_values()
+        w0 = sum(dense_pauli(n, *tomo.pauli_to_xz(pk)[:2]) * v for pk, v in ev0.items()) / 2 ** n
+        ok = ok and np.allclose(sm.density_matrix(), w0, atol=1e-9)
+        out.append(("C10.density.equals_inversion_of_values", ok, f"inv:{n}:{conn}:{tag}",
+                    f"{n}-{conn}, counts {tag}: density_matrix() differs from 2^-n sum_P expectation_values()[P] P (max deviation {np.abs(dm - want).max():.2e})",
+                    {"n": n, "connectivity": conn, "counts": tag}))
+
+    uniform = {s: 10 for s in keys}
+    for k in ks:
+        b = rnd.choice(keys)
+        check([({b: 1000} if j == k else dict(uniform)) for j in range(len(circs))], f"delta on circuit {k} outcome {b}, uniform elsewhere")
+        check([({b: 1000} if j == k else {rnd.choice(keys): 7, rnd.choice(keys): 3}) for j in range(len(circs))], f"delta on circuit {k} outcome {b}, two-point elsewhere")
+    check([{s: rnd.randrange(1, 50) for s in keys} for _ in circs], "seeded random counts")
+    return out
+
+
 def run(ctx: core.Ctx):
     import htstabilizer.tomography as T
     for f in (T.full_state_tomography_circuits, T.FullStateTomographyFitter.expectation_values, T.StabilizerMeasurementFitter.expectation_values,
               T.CircuitResult.__init__, T._compute_expectation_value, T.z_pauli_from_bitstring, T._compute_density_matrix_from_pauli_expectation_values):
         ctx.under_contract(f)
     ctx.selfcheck["oracle_gate_rules_checked_densely"] = P.selftest()
+    from ..contracts import pipeline as _pl
+    from .. import symrun as _sr
+    _sr.run(ctx, _pl.tomography_glue_tasks(), label="tomography-glue")      # density_matrix() = linear inversion of expectation_values(), for every input
     t = time.time()
     for res in core.pmap(config_job, docs.ADVERTISED, chunks=1):
         for famname, ok, key, what, rp in res:
@@ -113,6 +155,23 @@ def run(ctx: core.Ctx):
             ctx.record(fam, PROVED if ok else REFUTED, rp)
             if not ok:
                 ctx.violate(fam, key, what, rp)
+    import random as _r
+    rnd = _r.Random(ctx.seed + 10)
+    ij = []
+    for n, conn in docs.ADVERTISED:
+        if n <= 3 or (n == 4 and (not ctx.quick or conn in ("all", "star"))) or (n == 5 and not ctx.quick and conn in ("all", "T")):
+            ks = list(range(2 ** n + 1))
+            for ch in core.chunked(ks, 4):
+                ij.append((n, conn, rnd.randrange(1 << 30), ch))
+        elif n >= 5 and conn in ("linear", "ladder"):
+            ij.append((n, conn, rnd.randrange(1 << 30), [0, 2 ** n] if ctx.quick or n == 6 else [0, 7, 2 ** n]))
+    fam = ctx.family("C10.density.equals_inversion_of_values", core.BOUNDED, "native+dense-oracle", "density_matrix() = linear inversion of expectation_values() on structured count data")
+    fam.exhaustive = False
+    for res in core.pmap(inversion_job, ij, chunks=1):
+        for famname, ok, key, what, rp in res:
+            ctx.record(fam, PROVED if ok else REFUTED, rp if fam.total < 2 else None)
+            if not ok:
+                ctx.violate(fam, key, what, rp)
     ctx.extra["ground_time_s"] = round(time.time() - t, 2)
     ctx.trust("oracle tableau simulator, dense Pauli matrices", "M7 (rho = 2^-n sum_P Tr(rho P) P; pull-back formula)", "Q2/Q5/Q6 as in C12", "C09.partition (all 4^n Paulis occur) is re-derived here through the 4^n count")
     ctx.assume("exact statistics; floating point treated as real arithmetic", "density reconstruction for n=6 (5 in quick) not evaluated (linear map, same code path)")
@@ -122,6 +181,9 @@ def run(ctx: core.Ctx):
 
 def replay(data):
     inp = data["input"]
+    if "counts" in inp:
+        print("regenerate with ./check C10 (seeded count data):", inp)
+        return 1
     if "connectivity" in inp:
         bad = [r for r in config_job((inp["n"], inp["connectivity"])) if not r[1]]
     else:
